@@ -1,5 +1,6 @@
 import SdxProofs.Field
 import SdxProofs.MonadLemmas
+import SdxProofs.PrefixLemma
 import Mathlib.Tactic.Linarith
 set_option linter.unusedSectionVars false
 /-!
@@ -112,5 +113,22 @@ theorem commonPrefix_prefix (a b : List Char) : commonPrefix a b <+: a ∧ commo
 
 /-- Non-vacuity: `[0, 8)` over ℚ and `u = 1/4`. -/
 example : (0 : ℚ) ≤ 8 ∧ (0 : ℚ) ≤ 1 / 4 ∧ (1 / 4 : ℚ) < 1 := by norm_num
+
+/-- T11.c'  the mask never misdescribes the range: when a masked string is produced from a sorted value map
+(`sorted(set(values))`, code-point order), the text before the `*` is a prefix of *every* string whose index lies in
+the range the index was drawn from — in particular of the string the drawn index stands for. -/
+theorem C11_mask_prefix_covers_range (valueMap : List String) (hsorted : SortedStrings valueMap) (safe : List Nat)
+    (iv : Ival α) (s s' : List (Draw α)) (cell : Cell α) (f : α)
+    (h : (mapStringInterval valueMap safe iv).run s = .ok ((cell, f), s')) :
+    (∃ str, cell = .str str ∧ ∃ v ∈ safe, valueMap[v]? = some str) ∨
+    (∃ pre : List Char, ∃ v : Nat, cell = .str (String.ofList pre ++ "*" ++ toString v) ∧
+      ∀ k x, (stringIndexRange iv valueMap.length).1.toNat ≤ k → k ≤ (stringIndexRange iv valueMap.length).2.toNat →
+        valueMap[k]? = some x → pre <+: x.toList) := by
+  obtain ⟨v, _, _, _, hc⟩ := C11_string_result valueMap safe iv s s' cell f h
+  rcases hc with ⟨hs, str, h1, h2⟩ | ⟨_, a, b, ha, hb, h3⟩
+  · exact Or.inl ⟨str, h2, v, hs, h1⟩
+  · refine Or.inr ⟨commonPrefix a.toList b.toList, v, h3, ?_⟩
+    intro k x hk1 hk2 hx
+    exact mask_prefix_covers valueMap hsorted _ k _ a x b hk1 hk2 ha hx hb
 
 end
